@@ -7,11 +7,14 @@ import (
 
 	"verif/engine/evid"
 	"verif/engine/shard"
+	"verif/props/c01"
+	"verif/props/c02"
 	"verif/props/c09"
 	"verif/props/c10"
 	"verif/props/c11"
 	"verif/props/c12"
 	"verif/props/c13"
+	"verif/props/c20"
 )
 
 type prop struct {
@@ -20,11 +23,14 @@ type prop struct {
 }
 
 var props = map[string]prop{
+	"C01": {"exploration", c01.Run},
+	"C02": {"exploration", c02.Run},
 	"C09": {"model_checking", c09.Run},
 	"C10": {"model_checking", c10.Run},
 	"C11": {"model_checking", c11.Run},
 	"C12": {"model_checking", c12.Run},
 	"C13": {"model_checking", c13.Run},
+	"C20": {"exploration", c20.Run},
 }
 
 func main() {
